@@ -32,7 +32,7 @@ Proof.
   split; [exact E|].
   destruct (seek (fun e => listeners p e (s_reg s)) t (s_pend s)) as [[q rest]|]; [|discriminate].
   exists q, rest. split; [reflexivity|].
-  destruct (scall (q_tok q, q_arg q, listeners p (q_ev q) (s_reg s)) h m t x); [|discriminate].
+  destruct (scall (q_tok q, q_arg q, targets (fun e => listeners p e (s_reg s)) q) h m t x); [|discriminate].
   injection H as <-. reflexivity.
 Qed.
 
@@ -56,16 +56,20 @@ Qed.
 (* ---------- C10: no call has a freed receiver ---------- *)
 From Desper Require Import Events.Tables.
 
-(* replays only Drop / call / return / raise: g = freed so far, rv = receivers executing *)
-Fixpoint no_dead_call (g rv : list hid) (log : list entry) : bool :=
+(* replays only Drop / call / return / raise and the World component actions:
+   g = freed so far, rv = receivers executing, ctl = handlers that entered a World row
+   (a postponed on_add may hold them, so the replay never counts them as freed) *)
+Fixpoint no_dead_call (g rv ctl : list hid) (log : list entry) : bool :=
   match log with
   | [] => true
   | EAct (ADrop h) :: log =>
-      if inb h g || inb h rv then no_dead_call g rv log else no_dead_call (h :: g) rv log
-  | ECall h _ _ _ :: log => negb (inb h g) && no_dead_call g (h :: rv) log
-  | ERet :: log => no_dead_call g (tl rv) log
-  | EAct ARaise :: log => no_dead_call g [] log
-  | _ :: log => no_dead_call g rv log
+      if inb h g || inb h rv || inb h ctl then no_dead_call g rv ctl log else no_dead_call (h :: g) rv ctl log
+  | EAct (ACreate h) :: log => no_dead_call g rv (h :: ctl) log
+  | EAct (AReplace _ h2) :: log => no_dead_call g rv (h2 :: ctl) log
+  | ECall h _ _ _ :: log => negb (inb h g) && no_dead_call g (h :: rv) ctl log
+  | ERet :: log => no_dead_call g (tl rv) ctl log
+  | EAct ARaise :: log => no_dead_call g [] ctl log
+  | _ :: log => no_dead_call g rv ctl log
   end.
 
 Definition live_list (g : list hid) (l : list (hid * meth)) := forall x, In x l -> inb (fst x) g = false.
@@ -74,6 +78,7 @@ Record Inv (s : sstate) : Prop := {
   i_reg : forall h, inb h (s_reg s) = true -> inb h (s_gone s) = false;
   i_owed : forall d, In d (s_owed s) -> live_list (s_gone s) (d_rem d);
   i_rel : forall r d, In (r, Some d) (s_rel s) -> live_list (s_gone s) (d_rem d);
+  i_dir : forall x h m, In x (s_pend s) -> q_dir x = Some (h, m) -> inb h (s_gone s) = false;
 }.
 
 Lemma In_rem1 x y l : In y (rem1 x l) -> In y l.
@@ -130,38 +135,57 @@ Qed.
 
 Ltac ssimpl := cbn [s_next s_reg s_gone s_en s_pend s_owed s_rel s_recv s_exc upd_reg upd_owed].
 
-Lemma sstep_Inv p s e s' : Inv s -> sstep p s e = Some s' ->
-  Inv s' /\ no_dead_call (s_gone s) (s_recv s) [e] = true /\
-  forall log, no_dead_call (s_gone s) (s_recv s) (e :: log) =
-              (no_dead_call (s_gone s) (s_recv s) [e] && no_dead_call (s_gone s') (s_recv s') log).
+Lemma dir_app_relay p n h q g :
+  (forall x h0 m, In x q -> q_dir x = Some (h0, m) -> inb h0 g = false) -> inb h g = false ->
+  forall x h0 m, In x (q ++ relay p n h) -> q_dir x = Some (h0, m) -> inb h0 g = false.
 Proof.
-  intros [Ireg Iowed Irel] H. unfold sstep in H. destruct (s_exc s) eqn:Ex.
-  { destruct e; try discriminate. injection H as <-. repeat split; cbn; auto. }
-  destruct e as [a|h b|h m t x| |t|].
-  - destruct a as [h|h|h|e x|b| | |h].
-    + destruct (inb h (s_gone s)) eqn:Eg; injection H as <-; (split; [|split; [reflexivity|reflexivity]]).
+  intros Hq Hh x h0 m Hx Hd. apply in_app_or in Hx. destruct Hx as [Hx|Hx]; [exact (Hq _ _ _ Hx Hd)|].
+  destruct (relay_dir _ _ _ _ Hx) as [_ [m' Hd']]. rewrite Hd' in Hd. injection Hd as <- _. exact Hh.
+Qed.
+
+Lemma live_targets p s q : Inv s -> In q (s_pend s) ->
+  live_list (s_gone s) (targets (fun e => listeners p e (s_reg s)) q).
+Proof.
+  intros [Ireg _ _ Idir] Hq. unfold targets. destruct (q_dir q) as [[h0 m0]|] eqn:Ed.
+  - intros y [<-|[]]. cbn [fst]. exact (Idir _ _ _ Hq Ed).
+  - apply live_listeners. exact Ireg.
+Qed.
+
+Definition call_live (s : sstate) (e : entry) : Prop :=
+  match e with ECall h _ _ _ => inb h (s_gone s) = false | _ => True end.
+
+Lemma sstep_Inv p s e s' : Inv s -> sstep p s e = Some s' -> Inv s' /\ call_live s e.
+Proof.
+  intros I H. pose proof I as [Ireg Iowed Irel Idir]. unfold sstep in H. destruct (s_exc s) eqn:Ex.
+  { destruct e; try discriminate. injection H as <-. split; [constructor; auto|exact Logic.I]. }
+  destruct e as [a|h b|h m t x| |t| |].
+  - destruct a as [h|h|h|e x|b| | |h|h|h|h h2].
+    + destruct (inb h (s_gone s)) eqn:Eg; injection H as <-; (split; [|exact Logic.I]).
       * constructor; auto.
       * constructor; ssimpl; auto. intros h' Hh'. rewrite inb_hadd in Hh'. apply orb_true_iff in Hh'.
         destruct Hh' as [Hh'|Hh']; [auto|]. apply Z.eqb_eq in Hh'. subst. exact Eg.
-    + destruct (inb h (s_gone s)) eqn:Eg; injection H as <-; (split; [|split; [reflexivity|reflexivity]]).
+    + destruct (inb h (s_gone s)) eqn:Eg; injection H as <-; (split; [|exact Logic.I]).
       * constructor; auto.
       * constructor; ssimpl; auto. intros h' Hh'. rewrite inb_hdel in Hh'. apply andb_true_iff in Hh'.
         destruct Hh' as [Hh' _]. auto.
     + discriminate.
-    + destruct (s_en s); injection H as <-; (split; [|split; [reflexivity|reflexivity]]).
+    + destruct (s_en s); injection H as <-; (split; [|exact Logic.I]).
       * constructor; ssimpl; auto. intros d [<-|Hd]; [|auto]. unfold d_rem. cbn [snd]. apply live_listeners. exact Ireg.
-      * constructor; ssimpl; auto.
-    + destruct b; injection H as <-; (split; [|split; [reflexivity|reflexivity]]).
+      * constructor; ssimpl; auto. intros x0 h0 m0 Hx Hd. apply in_app_or in Hx.
+        destruct Hx as [Hx|[<-|[]]]; [exact (Idir _ _ _ Hx Hd)|discriminate].
+    + destruct b; injection H as <-; (split; [|exact Logic.I]).
       * constructor; ssimpl; auto. intros r d [Hd|Hd]; [discriminate|]. eauto.
       * constructor; ssimpl; auto.
-    + injection H as <-. split; [|split; [reflexivity|reflexivity]].
-      constructor; ssimpl; auto. intros h Hh. discriminate.
-    + injection H as <-. split; [|split; [reflexivity|reflexivity]].
+    + injection H as <-. split; [|exact Logic.I].
+      constructor; ssimpl; auto; try (intros h Hh; discriminate); try (intros x0 h0 m0 []).
+    + injection H as <-. split; [|exact Logic.I].
       constructor; ssimpl; auto; intros; contradiction.
-    + cbn [no_dead_call]. destruct (inb h (s_gone s) || inb h (s_recv s)) eqn:Eg; injection H as <-;
-        (split; [|split; [reflexivity|reflexivity]]).
-      * constructor; auto.
-      * constructor; ssimpl.
+    + destruct (inb h (s_gone s) || inb h (s_recv s)) eqn:Eg.
+      * cbn [orb] in H. injection H as <-. split; [exact I|exact Logic.I].
+      * destruct (relay_holds h (s_pend s)) eqn:Eh; cbn [orb] in H; injection H as <-.
+        { split; [exact I|exact Logic.I]. }
+        split; [|exact Logic.I].
+        constructor; ssimpl.
         -- intros h' Hh'. rewrite inb_hdel in Hh'. apply andb_true_iff in Hh'. destruct Hh' as [H1 H2].
            rewrite inb_cons. apply negb_true_iff in H2. rewrite H2. cbn [orb]. auto.
         -- intros d Hd. apply in_map_iff in Hd. destruct Hd as [d0 [<- Hd0]]. unfold strip_d, d_rem. cbn [snd].
@@ -169,30 +193,76 @@ Proof.
         -- intros r d Hd. apply in_map_iff in Hd. destruct Hd as [[r0 c0] [E Hd0]]. cbn [fst snd] in E.
            injection E as -> E. destruct c0 as [d0|]; [|discriminate]. cbn [option_map] in E. injection E as <-.
            unfold strip_d, d_rem. cbn [snd]. apply live_strip. exact (Irel r d0 Hd0).
+        -- intros x0 h0 m0 Hx Hd. rewrite inb_cons.
+           pose proof (relay_holds_false _ _ Eh _ _ _ Hx Hd) as Hne. apply Z.eqb_neq in Hne. rewrite Hne.
+           cbn [orb]. exact (Idir _ _ _ Hx Hd).
+    + destruct (s_en s || inb h (s_gone s)) eqn:Ec; [discriminate|]. apply orb_false_iff in Ec. destruct Ec as [_ Eg].
+      injection H as <-. split; [|exact Logic.I]. constructor; ssimpl; auto.
+      * intros h' Hh'. rewrite inb_hadd in Hh'. apply orb_true_iff in Hh'.
+        destruct Hh' as [Hh'|Hh']; [auto|]. apply Z.eqb_eq in Hh'. subst. exact Eg.
+      * apply dir_app_relay; auto.
+    + destruct (sleave_blocked h s); [discriminate|].
+      destruct (relay_holds h (s_pend s)) eqn:Eh; injection H as <-; (split; [|exact Logic.I]); constructor; ssimpl; auto.
+      * intros h' Hh'. rewrite inb_hdel in Hh'. apply andb_true_iff in Hh'. destruct Hh' as [Hh' _]. auto.
+      * intros h' Hh'. rewrite inb_hdel in Hh'. apply andb_true_iff in Hh'. destruct Hh' as [H1 H2].
+        rewrite inb_cons. apply negb_true_iff in H2. rewrite H2. cbn [orb]. auto.
+      * intros d Hd. apply in_map_iff in Hd. destruct Hd as [d0 [<- Hd0]]. unfold strip_d, d_rem. cbn [snd].
+        apply live_strip. exact (Iowed d0 Hd0).
+      * intros r d Hd. apply in_map_iff in Hd. destruct Hd as [[r0 c0] [E Hd0]]. cbn [fst snd] in E.
+        injection E as -> E. destruct c0 as [d0|]; [|discriminate]. cbn [option_map] in E. injection E as <-.
+        unfold strip_d, d_rem. cbn [snd]. apply live_strip. exact (Irel r d0 Hd0).
+      * intros x0 h0 m0 Hx Hd. rewrite inb_cons.
+        pose proof (relay_holds_false _ _ Eh _ _ _ Hx Hd) as Hne. apply Z.eqb_neq in Hne. rewrite Hne.
+        cbn [orb]. exact (Idir _ _ _ Hx Hd).
+    + destruct (s_en s || inb h2 (s_gone s) || (h =? h2) || sleave_blocked h s) eqn:Ec; [discriminate|].
+      apply orb_false_iff in Ec. destruct Ec as [Ec _]. apply orb_false_iff in Ec. destruct Ec as [Ec Ene].
+      apply orb_false_iff in Ec. destruct Ec as [_ Eg]. apply Z.eqb_neq in Ene.
+      assert (Hx2 : (h2 =? h) = false) by (apply Z.eqb_neq; congruence).
+      destruct (relay_holds h (s_pend s)) eqn:Eh; injection H as <-; (split; [|exact Logic.I]); constructor; ssimpl; auto.
+      * intros h' Hh'. rewrite inb_hadd in Hh'. apply orb_true_iff in Hh'. destruct Hh' as [Hh'|Hh'].
+        -- rewrite inb_hdel in Hh'. apply andb_true_iff in Hh'. destruct Hh' as [Hh' _]. auto.
+        -- apply Z.eqb_eq in Hh'. subst. exact Eg.
+      * apply dir_app_relay; auto.
+      * intros h' Hh'. rewrite inb_cons. rewrite inb_hadd in Hh'. apply orb_true_iff in Hh'. destruct Hh' as [Hh'|Hh'].
+        -- rewrite inb_hdel in Hh'. apply andb_true_iff in Hh'. destruct Hh' as [Hh' Hn].
+           apply negb_true_iff in Hn. rewrite Hn. cbn [orb]. auto.
+        -- apply Z.eqb_eq in Hh'. subst. rewrite Hx2. cbn [orb]. exact Eg.
+      * intros d Hd. apply in_map_iff in Hd. destruct Hd as [d0 [<- Hd0]]. unfold strip_d, d_rem. cbn [snd].
+        apply live_strip. exact (Iowed d0 Hd0).
+      * intros r d Hd. apply in_map_iff in Hd. destruct Hd as [[r0 c0] [E Hd0]]. cbn [fst snd] in E.
+        injection E as -> E. destruct c0 as [d0|]; [|discriminate]. cbn [option_map] in E. injection E as <-.
+        unfold strip_d, d_rem. cbn [snd]. apply live_strip. exact (Irel r d0 Hd0).
+      * apply dir_app_relay.
+        -- intros x0 h0 m0 Hx Hd. rewrite inb_cons.
+           pose proof (relay_holds_false _ _ Eh _ _ _ Hx Hd) as Hne. apply Z.eqb_neq in Hne. rewrite Hne.
+           cbn [orb]. exact (Idir _ _ _ Hx Hd).
+        -- rewrite inb_cons, Hx2. cbn [orb]. exact Eg.
   - destruct (Bool.eqb b (inb h (s_reg s))); [|discriminate]. injection H as <-.
-    split; [constructor; auto|split; reflexivity].
+    split; [exact I|exact Logic.I].
   - (* ECall *)
-    cbn [no_dead_call]. rewrite andb_true_r.
+    cbn [call_live].
     destruct (owed_call h m t x (s_owed s)) as [[l|]|] eqn:Eo; try discriminate.
     + injection H as <-. destruct (owed_call_live (s_gone s) _ _ _ _ _ _ Eo Iowed) as [H1 H2].
-      rewrite H1. cbn. split; [constructor; ssimpl; auto|split; reflexivity].
+      split; [constructor; ssimpl; auto|exact H1].
     + destruct (s_rel s) as [|[r cur] rels] eqn:Er; [discriminate|].
       destruct (match cur with Some d => scall d h m t x | None => None end) as [d'|] eqn:Ec.
       * destruct cur as [d|]; [|discriminate]. injection H as <-.
         destruct (scall_live (s_gone s) _ _ _ _ _ _ Ec (Irel r d (or_introl eq_refl))) as [H1 H2].
-        rewrite H1. cbn. split; [|split; reflexivity]. constructor; ssimpl; auto.
+        split; [|exact H1]. constructor; ssimpl; auto.
         intros r0 d0 [E|H0]; [injection E as <- <-; exact H2|]. apply (Irel r0 d0). right. exact H0.
       * destruct (s_en s && rel_done cur); [|discriminate].
-        destruct (seek (fun e => listeners p e (s_reg s)) t (s_pend s)) as [[q rest]|]; [|discriminate].
-        destruct (scall (q_tok q, q_arg q, listeners p (q_ev q) (s_reg s)) h m t x) as [d'|] eqn:Es; [|discriminate].
+        destruct (seek (fun e => listeners p e (s_reg s)) t (s_pend s)) as [[q rest]|] eqn:Ek; [|discriminate].
+        destruct (seek_In _ _ _ _ _ Ek) as [Hin Hsub].
+        destruct (scall (q_tok q, q_arg q, targets (fun e => listeners p e (s_reg s)) q) h m t x) as [d'|] eqn:Es; [|discriminate].
         injection H as <-.
-        destruct (scall_live (s_gone s) _ _ _ _ _ _ Es (live_listeners p _ _ _ Ireg)) as [H1 H2].
-        rewrite H1. cbn. split; [|split; reflexivity]. constructor; ssimpl; auto.
-        intros r0 d0 [E|H0]; [injection E as <- <-; exact H2|]. apply (Irel r0 d0). right. exact H0.
+        destruct (scall_live (s_gone s) _ _ _ _ _ _ Es (live_targets p s q I Hin)) as [H1 H2].
+        split; [|exact H1]. constructor; ssimpl; auto.
+        -- intros r0 d0 [E|H0]; [injection E as <- <-; exact H2|]. apply (Irel r0 d0). right. exact H0.
+        -- intros x0 h0 m0 Hx Hd. exact (Idir _ _ _ (Hsub _ Hx) Hd).
   - destruct (s_recv s) as [|h0 rv]; [discriminate|]. injection H as <-.
-    split; [constructor; auto|split; reflexivity].
+    split; [constructor; auto|exact Logic.I].
   - destruct (owed_end t (s_owed s)) as [[l|]|] eqn:Eo; try discriminate.
-    + injection H as <-. split; [|split; reflexivity]. constructor; ssimpl; auto.
+    + injection H as <-. split; [|exact Logic.I]. constructor; ssimpl; auto.
       intros d Hd. apply Iowed. exact (owed_end_sub _ _ _ Eo d Hd).
     + destruct (s_rel s) as [|[r cur] rels] eqn:Er; [discriminate|].
       destruct ((t =? r) && rel_done cur); [|discriminate].
@@ -200,32 +270,141 @@ Proof.
       { intros r0 d0 H0. apply (Irel r0 d0). right. exact H0. }
       destruct (s_en s).
       * destruct (forallb (skippable (fun e => listeners p e (s_reg s))) (s_pend s)); [|discriminate].
-        injection H as <-. split; [constructor; ssimpl; auto|split; reflexivity].
-      * injection H as <-. split; [constructor; ssimpl; auto|split; reflexivity].
+        injection H as <-. split; [constructor; ssimpl; auto; intros x0 h0 m0 []|exact Logic.I].
+      * injection H as <-. split; [constructor; ssimpl; auto|exact Logic.I].
   - discriminate.
+  - injection H as <-. split; [exact I|exact Logic.I].
 Qed.
 
-Lemma srun_no_dead_call p log : forall s s', Inv s -> srun p s log = Some s' ->
-  no_dead_call (s_gone s) (s_recv s) log = true.
+Definition sub (g g' : list hid) := forall h, inb h g = true -> inb h g' = true.
+Definition dirs_in (q : list qent) (ctl : list hid) :=
+  forall x h m, In x q -> q_dir x = Some (h, m) -> inb h ctl = true.
+Definition recv_next (rv : list hid) (e : entry) : list hid :=
+  match e with ECall h _ _ _ => h :: rv | ERet => tl rv | EAct ARaise => [] | _ => rv end.
+Definition ctl_next (ctl : list hid) (e : entry) : list hid :=
+  match e with EAct (ACreate h) => h :: ctl | EAct (AReplace _ h2) => h2 :: ctl | _ => ctl end.
+
+Lemma dirs_in_relay p n h q ctl : dirs_in q ctl -> dirs_in (q ++ relay p n h) (h :: ctl).
 Proof.
-  induction log as [|e log IH]; intros s s' I H; [reflexivity|]. cbn [srun] in H.
-  destruct (sstep p s e) as [s1|] eqn:Es; [|discriminate].
-  destruct (sstep_Inv p s e s1 I Es) as [I1 [H1 H2]]. rewrite H2, H1. cbn [andb]. exact (IH s1 s' I1 H).
+  intros D x h0 m Hx Hd. rewrite inb_cons. apply in_app_or in Hx. destruct Hx as [Hx|Hx].
+  - rewrite (D _ _ _ Hx Hd). apply orb_true_r.
+  - destruct (relay_dir _ _ _ _ Hx) as [_ [m' Hd']]. rewrite Hd' in Hd. injection Hd as <- _.
+    rewrite Z.eqb_refl. reflexivity.
 Qed.
 
-Theorem holdsq_no_dead_call p log : holdsq_b p log = true -> no_dead_call [] [] log = true.
+(* how the observable part of the specification state moves *)
+Lemma sstep_evol p s e s' ctl : sstep p s e = Some s' -> dirs_in (s_pend s) ctl ->
+  s_recv s' = recv_next (s_recv s) e /\ sub (s_gone s) (s_gone s') /\
+  dirs_in (s_pend s') (ctl_next ctl e) /\
+  (forall h, e = EAct (ADrop h) ->
+     inb h (s_gone s') = true \/ inb h (s_recv s) = true \/ relay_holds h (s_pend s) = true).
+Proof.
+  intros H D. unfold sstep in H. destruct (s_exc s).
+  { destruct e; try discriminate. injection H as <-. cbn. repeat split; auto; try (intros h0 E; discriminate).
+    intros h0 E; exact E. }
+  assert (S0 : sub (s_gone s) (s_gone s)) by (intros h0 E; exact E).
+  destruct e as [a|h b|h m t x| |t| |].
+  - destruct a as [h|h|h|e x|b| | |h|h|h|h h2]; cbn [recv_next ctl_next].
+    + destruct (inb h (s_gone s)); injection H as <-; repeat split; auto; intros h0 E; discriminate.
+    + destruct (inb h (s_gone s)); injection H as <-; repeat split; auto; intros h0 E; discriminate.
+    + discriminate.
+    + destruct (s_en s); injection H as <-; ssimpl; repeat split; auto; try (intros h0 E; discriminate).
+      intros x0 h0 m0 Hx Hd. apply in_app_or in Hx. destruct Hx as [Hx|[<-|[]]]; [exact (D _ _ _ Hx Hd)|discriminate].
+    + destruct b; injection H as <-; ssimpl; repeat split; auto; intros h0 E; discriminate.
+    + injection H as <-; ssimpl; repeat split; auto; try (intros h0 E; discriminate). intros x0 h0 m0 [].
+    + injection H as <-; ssimpl; repeat split; auto; intros h0 E; discriminate.
+    + destruct (inb h (s_gone s)) eqn:Eg; cbn [orb] in H.
+      { injection H as <-. repeat split; auto. intros h0 E. injection E as E. subst h0. left. exact Eg. }
+      destruct (inb h (s_recv s)) eqn:Er; cbn [orb] in H.
+      { injection H as <-. repeat split; auto. intros h0 E. injection E as E. subst h0. right. left. exact Er. }
+      destruct (relay_holds h (s_pend s)) eqn:Eh.
+      { injection H as <-. repeat split; auto. intros h0 E. injection E as E. subst h0. right. right. exact Eh. }
+      injection H as <-. ssimpl. repeat split; auto.
+      * intros h0 E. rewrite inb_cons, E. apply orb_true_r.
+      * intros h0 E. injection E as E. subst h0. left. rewrite inb_cons, Z.eqb_refl. reflexivity.
+    + destruct (s_en s || inb h (s_gone s)); [discriminate|]. injection H as <-. ssimpl.
+      repeat split; auto; try (intros h0 E; discriminate). apply dirs_in_relay. exact D.
+    + destruct (sleave_blocked h s); [discriminate|].
+      destruct (relay_holds h (s_pend s)); injection H as <-; ssimpl; repeat split; auto;
+        try (intros h0 E; discriminate).
+      intros h0 E. rewrite inb_cons, E. apply orb_true_r.
+    + destruct (s_en s || inb h2 (s_gone s) || (h =? h2) || sleave_blocked h s); [discriminate|].
+      destruct (relay_holds h (s_pend s)); injection H as <-; ssimpl; repeat split; auto;
+        try (intros h0 E; discriminate); try (apply dirs_in_relay; exact D).
+      intros h0 E. rewrite inb_cons, E. apply orb_true_r.
+  - destruct (Bool.eqb b (inb h (s_reg s))); [|discriminate]. injection H as <-.
+    repeat split; auto; intros h0 E; discriminate.
+  - cbn [recv_next ctl_next].
+    destruct (owed_call h m t x (s_owed s)) as [[l|]|]; try discriminate.
+    + injection H as <-. ssimpl. repeat split; auto; intros h0 E; discriminate.
+    + destruct (s_rel s) as [|[r cur] rels]; [discriminate|].
+      destruct (match cur with Some d => scall d h m t x | None => None end) as [d'|].
+      * injection H as <-. ssimpl. repeat split; auto; intros h0 E; discriminate.
+      * destruct (s_en s && rel_done cur); [|discriminate].
+        destruct (seek (fun e => listeners p e (s_reg s)) t (s_pend s)) as [[q rest]|] eqn:Ek; [|discriminate].
+        destruct (seek_In _ _ _ _ _ Ek) as [_ Hsub].
+        destruct (scall (q_tok q, q_arg q, targets (fun e => listeners p e (s_reg s)) q) h m t x); [|discriminate].
+        injection H as <-. ssimpl. repeat split; auto; try (intros h0 E; discriminate).
+        intros x0 h0 m0 Hx Hd. exact (D _ _ _ (Hsub _ Hx) Hd).
+  - destruct (s_recv s) as [|h0 rv]; [discriminate|]. injection H as <-. ssimpl.
+    repeat split; auto; intros h1 E; discriminate.
+  - destruct (owed_end t (s_owed s)) as [[l|]|]; try discriminate.
+    + injection H as <-. ssimpl. repeat split; auto; intros h0 E; discriminate.
+    + destruct (s_rel s) as [|[r cur] rels]; [discriminate|].
+      destruct ((t =? r) && rel_done cur); [|discriminate].
+      destruct (s_en s).
+      * destruct (forallb (skippable (fun e => listeners p e (s_reg s))) (s_pend s)); [|discriminate].
+        injection H as <-. ssimpl. repeat split; auto; try (intros h0 E; discriminate). intros x0 h0 m0 [].
+      * injection H as <-. ssimpl. repeat split; auto; intros h0 E; discriminate.
+  - discriminate.
+  - injection H as <-. repeat split; auto; intros h0 E; discriminate.
+Qed.
+
+Lemma relay_holds_true h q : relay_holds h q = true -> exists x m, In x q /\ q_dir x = Some (h, m).
+Proof.
+  unfold relay_holds. rewrite existsb_exists. intros [x [Hx E]]. destruct (q_dir x) as [[h0 m0]|] eqn:Ed; [|discriminate].
+  cbn [fst] in E. apply Z.eqb_eq in E. subst. exists x, m0. split; [exact Hx|exact Ed].
+Qed.
+
+Lemma srun_no_dead_call p log : forall s s' g ctl, Inv s -> srun p s log = Some s' ->
+  sub g (s_gone s) -> dirs_in (s_pend s) ctl -> no_dead_call g (s_recv s) ctl log = true.
+Proof.
+  induction log as [|e log IH]; intros s s' g ctl I H G D; [reflexivity|]. cbn [srun] in H.
+  destruct (sstep p s e) as [s1|] eqn:Es; [|discriminate].
+  destruct (sstep_Inv p s e s1 I Es) as [I1 CL].
+  destruct (sstep_evol p s e s1 ctl Es D) as [Er [Gm [D1 Dr]]].
+  assert (G1 : sub g (s_gone s1)) by (intros h0 E; exact (Gm _ (G _ E))).
+  assert (Gen : no_dead_call g (recv_next (s_recv s) e) (ctl_next ctl e) log = true).
+  { rewrite <- Er. exact (IH s1 s' g _ I1 H G1 D1). }
+  destruct e as [a|h b|h m t x| |t| |]; try exact Gen.
+  - destruct a as [h|h|h|e x|b| | |h|h|h|h h2]; try exact Gen.
+    cbn [no_dead_call]. cbn [recv_next ctl_next] in *.
+    destruct (inb h g || inb h (s_recv s) || inb h ctl) eqn:Ec; [exact Gen|].
+    apply orb_false_iff in Ec. destruct Ec as [Ec Ec3]. apply orb_false_iff in Ec. destruct Ec as [Ec1 Ec2].
+    rewrite <- Er. apply (IH s1 s' (h :: g) ctl I1 H); [|exact D1].
+    intros h0 E. rewrite inb_cons in E. apply orb_true_iff in E. destruct E as [E|E]; [|exact (G1 _ E)].
+    apply Z.eqb_eq in E. subst h0.
+    destruct (Dr h eq_refl) as [X|[X|X]]; [exact X|congruence|].
+    destruct (relay_holds_true _ _ X) as [x0 [m0 [Hx Hd]]]. rewrite (D _ _ _ Hx Hd) in Ec3. discriminate.
+  - cbn [no_dead_call]. cbn [recv_next ctl_next] in Gen. rewrite Gen, andb_true_r.
+    cbn [call_live] in CL. destruct (inb h g) eqn:E; [|reflexivity]. rewrite (G _ E) in CL. discriminate.
+Qed.
+
+Theorem holdsq_no_dead_call p log : holdsq_b p log = true -> no_dead_call [] [] [] log = true.
 Proof.
   unfold holdsq_b. intro H. destruct (srun p sinit log) as [s'|] eqn:E; [|discriminate].
-  apply (srun_no_dead_call p log sinit s'); [|exact E].
-  constructor; cbn; intros; try contradiction. discriminate.
+  apply (srun_no_dead_call p log sinit s' [] []); [|exact E| |].
+  - constructor; cbn; intros; try contradiction. discriminate.
+  - intros h0 E0. discriminate.
+  - intros x0 h0 m0 [].
 Qed.
 
 Theorem dropped_is_unregistered p s h s' : sstep p s (EAct (ADrop h)) = Some s' ->
-    inb h (s_gone s) = false -> inb h (s_recv s) = false ->
+    inb h (s_gone s) = false -> inb h (s_recv s) = false -> relay_holds h (s_pend s) = false ->
     inb h (s_reg s') = false /\ inb h (s_gone s') = true /\
     forall e, ~ exists m, In (h, m) (listeners p e (s_reg s')).
 Proof.
-  unfold sstep. destruct (s_exc s); [discriminate|]. intros H G R. rewrite G, R in H. cbn [orb] in H.
+  unfold sstep. destruct (s_exc s); [discriminate|]. intros H G R Q. rewrite G, R, Q in H. cbn [orb] in H.
   injection H as <-. cbn [s_reg s_gone].
   assert (E : inb h (hdel h (s_reg s)) = false).
   { rewrite inb_hdel. rewrite Z.eqb_refl. apply andb_false_r. }
